@@ -26,6 +26,21 @@ def sh(cmd, cwd=None, timeout=3600, env=None):
     return r.returncode, (r.stdout + r.stderr)
 
 
+def keep_replays(sid, prop, out):
+    """copy (up to 2) replay files named in VIOLATION lines into seeded/<sid>/replays/"""
+    import re
+    dst = os.path.join(VERIF, "seeded", sid, "replays")
+    n = 0
+    for m in re.finditer(r"^VIOLATION property=(\S+) replay=(\S+)", out, flags=re.M):
+        if n >= 2:
+            break
+        if os.path.exists(m.group(2)):
+            os.makedirs(dst, exist_ok=True)
+            shutil.copy(m.group(2), os.path.join(dst, "%s_%d.json" % (prop, n)))
+            n += 1
+    return n
+
+
 def recheck(a):
     dst = os.path.join(VERIF, "seeded", a.sid)
     meta = json.load(open(os.path.join(dst, "meta.json")))
@@ -43,6 +58,7 @@ def recheck(a):
             meta["checks"][p] = dict(exit=rc, wall_s=round(time.time() - t, 1), violation_classes=classes, first_violations=first,
                                      summary=[l for l in out.splitlines() if l.startswith(p + " tier=")][-1:])
             meta["ran"].append("re-check: git -C /repo apply patch.diff && ./run_check.py %s --tier %s -> exit %d" % (p, a.tier, rc))
+            keep_replays(a.sid, p, out)
             if p not in meta["checked_with"]:
                 meta["checked_with"].append(p)
             print(p, "exit", rc, classes[:6])
@@ -115,6 +131,7 @@ def main():
             meta["checks"][p] = dict(exit=rc, wall_s=round(time.time() - t, 1), violation_classes=classes, first_violations=first,
                                      summary=[l for l in out.splitlines() if l.startswith(p + " tier=")][-1:])
             meta["ran"].append("git -C /repo apply patch.diff && ./run_check.py %s --tier %s -> exit %d" % (p, a.tier, rc))
+            keep_replays(a.sid, p, out)
             print(p, "exit", rc, classes[:6])
     finally:
         sh(["git", "-C", "/repo", "checkout", "--", "."])
